@@ -33,6 +33,7 @@ type MOp struct {
 
 type MapPlan struct {
 	VType string `json:"vtype"` // int string ptr error any
+	KType string `json:"ktype,omitempty"` // "" = int keys; "any" = interface keys, one of them the nil interface
 	Ops   []MOp  `json:"ops"`
 }
 
@@ -40,6 +41,9 @@ var mapOps = []string{"Load", "Load", "Store", "Store", "LoadOrStore", "LoadAndD
 
 func genMapPlan(t *rapid.T) MapPlan {
 	p := MapPlan{VType: rapid.SampledFrom([]string{"int", "string", "ptr", "error", "any"}).Draw(t, "vtype")}
+	if rapid.IntRange(0, 3).Draw(t, "anykeys") == 0 {
+		p.KType = "any"
+	}
 	n := rapid.IntRange(1, 30).Draw(t, "n")
 	for i := 0; i < n; i++ {
 		p.Ops = append(p.Ops, MOp{Op: rapid.SampledFrom(mapOps).Draw(t, "op"), K: rapid.IntRange(0, 3).Draw(t, "k"),
@@ -73,9 +77,18 @@ func catch2(f func()) (panicked bool) {
 	return false
 }
 
+var anyKeys = []any{nil, 1, "k2", 3.5}
+
 func runMapTyped[V any](p MapPlan, mk func(int) V) (vk.Outcome, error) {
+	if p.KType == "any" {
+		return runMapKV(p, func(i int) any { return anyKeys[i&3] }, mk)
+	}
+	return runMapKV(p, func(i int) int { return i & 3 }, mk)
+}
+
+func runMapKV[K comparable, V any](p MapPlan, mkK func(int) K, mk func(int) V) (vk.Outcome, error) {
 	var out vk.Outcome
-	var w xsync.Map[int, V]
+	var w xsync.Map[K, V]
 	var ref sync.Map
 	var zero V
 	absentLoad, nilPresentLoad := false, false
@@ -84,9 +97,10 @@ func runMapTyped[V any](p MapPlan, mk func(int) V) (vk.Outcome, error) {
 		if poisoned {
 			break
 		}
-		what := fmt.Sprintf("step %d %s (V=%s)", i, vk.Short(o), p.VType)
-		_, present := ref.Load(o.K)
-		rv, _ := ref.Load(o.K)
+		what := fmt.Sprintf("step %d %s (V=%s K=%s)", i, vk.Short(o), p.VType, p.KType)
+		key := mkK(o.K)
+		_, present := ref.Load(any(key))
+		rv, _ := ref.Load(any(key))
 		holdsNil := present && rv == nil
 		// cmp runs the same operation on both maps; each returns (value, flag).
 		cmp := func(name string, fw func() (V, bool), fr func() (any, bool)) error {
@@ -126,15 +140,15 @@ func runMapTyped[V any](p MapPlan, mk func(int) V) (vk.Outcome, error) {
 			if holdsNil {
 				nilPresentLoad = true
 			}
-			err = cmp("Load", func() (V, bool) { return w.Load(o.K) }, func() (any, bool) { return ref.Load(o.K) })
+			err = cmp("Load", func() (V, bool) { return w.Load(key) }, func() (any, bool) { return ref.Load(any(key)) })
 		case "Store":
-			w.Store(o.K, v)
-			ref.Store(o.K, any(v))
+			w.Store(key, v)
+			ref.Store(any(key), any(v))
 		case "LoadOrStore":
 			if holdsNil {
 				nilPresentLoad = true
 			}
-			err = cmp("LoadOrStore", func() (V, bool) { return w.LoadOrStore(o.K, v) }, func() (any, bool) { return ref.LoadOrStore(o.K, any(v)) })
+			err = cmp("LoadOrStore", func() (V, bool) { return w.LoadOrStore(key, v) }, func() (any, bool) { return ref.LoadOrStore(any(key), any(v)) })
 		case "LoadAndDelete":
 			if !present {
 				absentLoad = true
@@ -142,10 +156,10 @@ func runMapTyped[V any](p MapPlan, mk func(int) V) (vk.Outcome, error) {
 			if holdsNil {
 				nilPresentLoad = true
 			}
-			err = cmp("LoadAndDelete", func() (V, bool) { return w.LoadAndDelete(o.K) }, func() (any, bool) { return ref.LoadAndDelete(o.K) })
+			err = cmp("LoadAndDelete", func() (V, bool) { return w.LoadAndDelete(key) }, func() (any, bool) { return ref.LoadAndDelete(any(key)) })
 		case "Delete":
-			w.Delete(o.K)
-			ref.Delete(o.K)
+			w.Delete(key)
+			ref.Delete(any(key))
 		case "Swap":
 			if !present {
 				absentLoad = true
@@ -153,17 +167,17 @@ func runMapTyped[V any](p MapPlan, mk func(int) V) (vk.Outcome, error) {
 			if holdsNil {
 				nilPresentLoad = true
 			}
-			err = cmp("Swap", func() (V, bool) { return w.Swap(o.K, v) }, func() (any, bool) { return ref.Swap(o.K, any(v)) })
+			err = cmp("Swap", func() (V, bool) { return w.Swap(key, v) }, func() (any, bool) { return ref.Swap(any(key), any(v)) })
 		case "CompareAndSwap":
-			err = cmp("CompareAndSwap", func() (V, bool) { return zero, w.CompareAndSwap(o.K, old, v) },
-				func() (any, bool) { return nil, ref.CompareAndSwap(o.K, any(old), any(v)) })
+			err = cmp("CompareAndSwap", func() (V, bool) { return zero, w.CompareAndSwap(key, old, v) },
+				func() (any, bool) { return nil, ref.CompareAndSwap(any(key), any(old), any(v)) })
 		case "CompareAndDelete":
-			err = cmp("CompareAndDelete", func() (V, bool) { return zero, w.CompareAndDelete(o.K, old) },
-				func() (any, bool) { return nil, ref.CompareAndDelete(o.K, any(old)) })
+			err = cmp("CompareAndDelete", func() (V, bool) { return zero, w.CompareAndDelete(key, old) },
+				func() (any, bool) { return nil, ref.CompareAndDelete(any(key), any(old)) })
 		case "Range":
-			got := map[int]any{}
+			got := map[any]any{}
 			wp := catch2(func() {
-				w.Range(func(k int, v V) bool { got[k] = any(v); return true })
+				w.Range(func(k K, v V) bool { got[any(k)] = any(v); return true })
 			})
 			if wp {
 				return out, vk.Violf("map-panic", "%s: xsync.Map.Range panicked (sync.Map.Range does not)", what)
@@ -172,7 +186,7 @@ func runMapTyped[V any](p MapPlan, mk func(int) V) (vk.Outcome, error) {
 			var rerr error
 			ref.Range(func(k, v any) bool {
 				n++
-				g, ok := got[k.(int)]
+				g, ok := got[k]
 				if !ok {
 					rerr = vk.Violf("map-range", "%s: Range misses key %v", what, k)
 				} else if v == nil {
@@ -192,7 +206,7 @@ func runMapTyped[V any](p MapPlan, mk func(int) V) (vk.Outcome, error) {
 			}
 			// early stop
 			cnt := 0
-			w.Range(func(int, V) bool { cnt++; return false })
+			w.Range(func(K, V) bool { cnt++; return false })
 			if cnt > 1 {
 				return out, vk.Violf("map-range", "%s: Range continued after f returned false", what)
 			}
@@ -205,12 +219,16 @@ func runMapTyped[V any](p MapPlan, mk func(int) V) (vk.Outcome, error) {
 		}
 		// the two maps agree on every key after every step
 		for k := 0; k < 4; k++ {
-			if e := cmp("Load(after)", func() (V, bool) { return w.Load(k) }, func() (any, bool) { return ref.Load(k) }); e != nil {
+			kk := mkK(k)
+			if e := cmp("Load(after)", func() (V, bool) { return w.Load(kk) }, func() (any, bool) { return ref.Load(any(kk)) }); e != nil {
 				return out, e
 			}
 		}
 	}
 	out.Label("vtype:" + p.VType)
+	if p.KType == "any" {
+		out.Label("interface-keys-incl-nil")
+	}
 	if nilPresentLoad {
 		out.Label("load-of-present-nil-interface")
 	}
